@@ -152,12 +152,12 @@ CONST_POOL = [
     {"$": "slice", "v": [1, 2, None]}, {"$": "slice", "v": [None, None, -1]}, {"$": "ellipsis"}, {"$": "notimpl"},
     {"$": "object"}, {"$": "strsub", "s": "a"}, {"$": "intsub", "v": 1}, {"$": "type", "n": "int"},
     {"$": "type", "n": "list"},
-    # single-element tuples (open finding C13-single-element-tuple-literal: excluded unless the case probes)
+    # single-element tuples (were rendered as '(1)' until /repo commit 9eebc64)
     {"$": "t", "v": [1]}, {"$": "t", "v": ["a"]}, {"$": "t", "v": [{"$": "t", "v": [1]}]}, [{"$": "t", "v": [0]}],
     {"$": "d", "v": [["k", {"$": "t", "v": [None]}]]}, {"$": "t", "v": [[1, 2]]},
 ]
-CONST_RISKY = [c for c in CONST_POOL if contains_single_tuple(c) or (isinstance(c, str) and "\n" in c)]
-CONST_SAFE = [c for c in CONST_POOL if not contains_single_tuple(c) and not (isinstance(c, str) and "\n" in c)]
+CONST_RISKY = [c for c in CONST_POOL if isinstance(c, str) and "\n" in c]
+CONST_SAFE = [c for c in CONST_POOL if c not in CONST_RISKY]
 
 # stub parameter defaults by parameter type: literals, and values whose repr is no expression for them (enum members,
 # Decimal, nan, objects: rendered with repr until /repo commit 798f1cf -- kept as regression coverage)
@@ -172,7 +172,7 @@ DEFAULTS = {
     "any": [None, 3, "x", [1, 2], {"$": "t", "v": [1, "a"]}, {"$": "d", "v": [["k", 1]]}, {"$": "ellipsis"},
             {"$": "enum", "c": "Color", "n": "RED"}, {"$": "frac", "s": "1/3"}, {"$": "object"}, {"$": "strsub", "s": "a"},
             {"$": "type", "n": "int"}, {"$": "dec", "s": "1"},
-            {"$": "t", "v": [1]}, {"$": "t", "v": [{"$": "t", "v": ["a"]}]}],   # single-element tuples: open finding
+            {"$": "t", "v": [1]}, {"$": "t", "v": [{"$": "t", "v": ["a"]}]}],
     "opt": [None],
     "list": [[]],
 }
@@ -899,12 +899,6 @@ def split_recipe(provs, api):
 def risk_tags(case) -> list[str]:
     """Features of the case that belong to a recorded open finding (used in signatures; see notes/C13.md)."""
     tags = []
-    api = case["api"]
-    if api["kind"] == "impl" and any(p.get("d") is not None and contains_single_tuple(p["d"][0])
-                                     for p in api["stub"]["params"]):
-        tags.append("single_tuple_default")
-    if any(it["k"] == "const" and "value" in it and contains_single_tuple(it["value"]) for it in case["recipe"]):
-        tags.append("single_tuple_const")
     if any(it["k"] == "const" and isinstance(it.get("value"), str) and "\n" in it["value"] for it in case["recipe"]):
         tags.append("newline_str_const")
     return tags
@@ -1212,11 +1206,9 @@ def st_value(t, models, absent_ok=False):  # noqa: C901, PLR0911
     raise ValueError(t)
 
 
-def default_for(draw, t, probe=False):
+def default_for(draw, t, probe=False):  # noqa: ARG001
     """-> vspec wrapped in a list, or None when the pool has no default for the type."""
     pool = DEFAULTS.get(t[0] if t is not None else "any")
-    if pool and not probe:
-        pool = [d for d in pool if not contains_single_tuple(d)]
     if not pool:
         return None
     return [draw(st.sampled_from(pool))]
